@@ -163,10 +163,13 @@ PObj(pi) ==
     [] pi = 2 ->
          UNION {Observe(Bin("+", a, b)) : a \in BaseObjs, b \in ExtObjs}
     [] pi = 3 ->
-         \* an object local shared by a computed-name field and ordinary fields (evaluated once per object)
+         \* an object local shared by a computed-name field and ordinary fields (evaluated once per object);
+         \* no `+` and no std call, so that the fields count as once-instantiated binding sites (Rewrite!TraceSites)
          UNION {{o, Dot(o, "a"), ArrE(<<Dot(o, "a"), Dot(o, "c")>>)} : o \in
-           {ObjE(<<OLoc("l", x), FdC(ne, "d", V("l")), Fd("b", v, V("l")), Fd("c", "d", Bin("+", V("l"), V("l")))>>) :
-              x \in {N(5), ArrE(<<N(1)>>), Bin("+", N(1), N(1))}, ne \in {S(<<97>>), Bin("+", S(<<97>>), S(<<>>))}, v \in {"d", "h"}}}
+           {ObjE(<<OLoc("l", x), FdC(ne, "d", V("l")), Fd("b", v, V("l")), Fd("c", "d", Bin("*", V("l"), N(2)))>>) :
+              x \in {N(5), Bin("*", N(2), N(3))}, ne \in {S(<<97>>), If(T, S(<<97>>), S(<<98>>))}, v \in {"d", "h"}}
+           \cup {ObjE(<<OLoc("l", N(4)), OLoc("m", Bin("*", V("l"), V("l"))), FdC(S(<<97>>), "d", V("m")),
+                        FdC(S(<<98>>), "h", V("m")), Fd("c", "d", ArrE(<<V("l"), V("m")>>))>>)}}
 
 -----------------------------------------------------------------------------
 (* comp: array and object comprehensions                                     *)
